@@ -1483,6 +1483,60 @@ func propC18(r *Run, w *World) {
 					ok, detail = false, "a value the rule does not know: "+Term(lf)
 				}
 			}
+			if !ok {
+				// the same decided along the paths: what matters is the buffer the client holds
+				// when the constructor returns it (a default applied after the struct was built)
+				ps, complete := Paths(fn, PathOpts{Cap: 4000})
+				pathOK := complete && len(ps) > 0
+				nSucc := 0
+				for _, p := range ps {
+					ret := p.Ret()
+					if ret == nil || len(ret.Results) != 2 || !isNilConst(ret.Results[1]) {
+						continue
+					}
+					nSucc++
+					var last *ssa.Store
+					lastIdx := -1
+					for ei, e := range p.Events {
+						if st, isSt := e.Instr.(*ssa.Store); isSt && e.Kind == EvStore {
+							if fa, isFA := st.Addr.(*ssa.FieldAddr); isFA && fieldOfAddr(fa) == x.fReadBuf {
+								last, lastIdx = st, ei
+							}
+						}
+					}
+					if last == nil {
+						pathOK = false
+						break
+					}
+					switch v := p.Resolve(last.Val).(type) {
+					case *ssa.MakeSlice:
+						if k, isK := constInt(v.Len); isK && k <= 0 {
+							pathOK = false
+						} else if !isK && !strings.Contains(Term(v.Len), "os.Getpagesize()") {
+							pathOK = false
+						}
+					case *ssa.Parameter:
+						held := false
+						for ei, e := range p.Events {
+							if e.Kind != EvCond {
+								continue
+							}
+							if e.Text == "len("+Term(v)+") != 0" || (ei > lastIdx && strings.HasPrefix(e.Text, "len(") && strings.HasSuffix(e.Text, ".readBuf) != 0")) {
+								held = true
+							}
+						}
+						if !held {
+							pathOK = false
+						}
+					default:
+						pathOK = false
+					}
+				}
+				if pathOK && nSucc > 0 {
+					r.OK("readBuf stored by NewNetlinkClient (by paths)", a.Instr.Pos(), "on every success path the client is returned with a fresh positive-size buffer or the caller's non-empty one")
+					continue
+				}
+			}
 			r.Check(ok, "readBuf stored by NewNetlinkClient", a.Instr.Pos(), "fresh positive-size buffer, or the caller's non-empty buffer", "the read buffer stored into the client can be "+detail)
 		}
 		r.Check(n >= 1, "readBuf is stored by the constructor", fn.Pos(), "", "the constructor never stores a read buffer")
